@@ -14,6 +14,7 @@ import (
 	"sort"
 	"strings"
 	"testing"
+	"time"
 )
 
 func verifWalkE(v reflect.Value, out *[]Expression, depth int) {
@@ -50,6 +51,7 @@ func TestVerifReplayC06(t *testing.T) {
 	srcs := map[string]string{
 		"crafted/multibyte": "package p\n\ntempl a(s string) {\n\t<p>é日本{ s }</p>\n\tif s == \"é\" {\n\t\t<b>{ s }</b>\n\t}\n}\n",
 		"crafted/crlf":      "package p\r\n\r\nimport (\r\n\t\"fmt\"\r\n\t\"strings\"\r\n)\r\n\r\nvar x = fmt.Sprint(strings.ToUpper(\"a\"))\r\n\r\ntempl a(s string) {\r\n\t<p>{ s }</p>\r\n\tfor _, c := range s {\r\n\t\t<i>{ string(c) }</i>\r\n\t}\r\n}\r\n",
+		"crafted/constructs": "package p\n\ntempl a(s string, ok bool) {\n\t<!-- c -->\n\t<div class={ s } if ok {\n\t\tid=\"x\"\n\t} else {\n\t\tid=\"y\"\n\t} { attrs... }>{ s }</div>\n\tfor _, c := range s {\n\t\t{ string(c) }\n\t}\n\tif ok {\n\t\t@b(s)\n\t} else if s == \"\" {\n\t\t<br/>\n\t} else {\n\t\t{! b(s) }\n\t}\n\t<script>var x = {{ s }};</script>\n\t<style>p{}</style>\n\t{{ v := 1 }}\n\t@b(s) {\n\t\t<i></i>\n\t}\n}\n",
 		"crafted/multiline": "package p\n\ntempl a(items []string) {\n\t<p>{ fmt.Sprintf(\"%d\",\n\t\tlen(items)) }</p>\n\t@b(items[0],\n\t\titems[1])\n\tswitch len(items) {\n\tcase 1:\n\t\t<a></a>\n\tdefault:\n\t\t<b></b>\n\t}\n}\n\ncss c(w string) {\n\twidth: { w };\n}\n",
 	}
 	files, _ := filepath.Glob("../../generator/test-*/*.templ")
@@ -63,6 +65,38 @@ func TestVerifReplayC06(t *testing.T) {
 		names = append(names, n)
 	}
 	sort.Strings(names)
+	// totality: every prefix of the crafted templates and of a few small repository templates (truncated input
+	// ends inside every construct) parses, or is rejected, without a panic and without a hang
+	prefixes := 0
+	for _, n := range names {
+		if !strings.HasPrefix(n, "crafted/") && len(srcs[n]) > 700 {
+			continue
+		}
+		src := srcs[n]
+		for cut := 0; cut <= len(src); cut++ {
+			prefixes++
+			done := make(chan string, 1)
+			go func(in string) {
+				defer func() {
+					if p := recover(); p != nil {
+						done <- fmt.Sprintf("panics: %v", p)
+					}
+				}()
+				ParseString(in)
+				done <- ""
+			}(src[:cut])
+			select {
+			case msg := <-done:
+				if msg != "" {
+					fmt.Printf("REPLAY-CONFIRMED template %s cut after %d bytes (%q): the parser %s\n", n, cut, src[max(0, cut-30):cut], msg)
+					return
+				}
+			case <-time.After(3 * time.Second):
+				fmt.Printf("REPLAY-CONFIRMED template %s cut after %d bytes (%q): the parser does not return (3 s)\n", n, cut, src[max(0, cut-30):cut])
+				return
+			}
+		}
+	}
 	total := 0
 	for _, n := range names {
 		src := srcs[n]
@@ -95,7 +129,7 @@ func TestVerifReplayC06(t *testing.T) {
 			}
 		}
 	}
-	fmt.Printf("REPLAY-NOT-REPRODUCED bounded search: %d expressions in %d templates are located\n", total, len(names))
+	fmt.Printf("REPLAY-NOT-REPRODUCED bounded search: %d expressions in %d templates are located; %d truncated inputs parse or fail without panic or hang\n", total, len(names), prefixes)
 }
 `
 
